@@ -240,6 +240,7 @@ def _compile(g):
 
 def main(tier):
     run = check.Run(PID, tier)
+    check.JOB_BUDGET[0] = 240 if tier == 'quick' else 3000
     B = G.BASIC
     groups = [B["SO2"], B["SO3"], B["SE2"], B["C1"], B["SE3"]]
     if tier == "thorough":
